@@ -185,7 +185,7 @@ namespace AIToolbox::MDP {
             double newQValue = 0;
             for ( size_t s1 = 0; s1 < S; ++s1 ) {
                 const double probability = model_.getTransitionProbability(s,a,s1);
-                if ( checkDifferentSmall( probability, 0.0 ) )
+                if ( probability != 0.0 )
                     newQValue += probability * ( model_.getExpectedReward(s,a,s1) + model_.getDiscount() * values[s1] );
             }
             qfun_(s, a) = newQValue;
